@@ -38,10 +38,28 @@
 #           a,b,t = x, x.pop() -> RCell x / RElem x by depth (bound only when the target is an LV name);  *.get_record()
 #           *.get_rhs() *.get_join_records() -> RSrc;  any other expression bound to an LV name -> RSrc in engine code, RLoad in
 #           a writer method when rooted at self/this or a local;  constants -> RFresh (a dummy non-source object).
+#   writer-owned state (any code) -> RLoad:  W.attr  or  W.attr[i]..[j]  (one attribute step, then index steps only; no call, no
+#           slice) bound to an LV name, where W is query_context.writer or a WRITER LOCAL: a non-LV local name whose EVERY binding
+#           in the function (closures, loop / handler / import targets, parameters included) is the plain statement
+#           name = query_context.writer   or   name = [new] C(..)  with C in WRITER_CLASSES and defined as a class (and not as a
+#           function) in the translated files.  It is exactly what a method of that writer gets for self.attr / self.attr[i]:
+#           a list object gets into a writer's state only through a statement that is translated to SStore (store rule; the
+#           arguments of the constructor call are arguments of an unknown call: SSetItem + SStore), so it was clean then, and
+#           the pool never holds a source.  A name that has any other binding is not a writer local (RSrc as before).  An
+#           assignment to query_context.writer whose value is not of the two forms above / a writer local is REFUSED.  No other
+#           query_context.* attribute is trusted (query_context.unnest_list may hold a source cell), with ONE exception:
+#   engine-owned list (Python only) -> RLoad:  name = query_context.A  where (i) EVERY binding of an attribute named A anywhere
+#           in the translated Python files (whole-module scan: assignment / augmented / loop / with / del targets; class-level
+#           names; any use of setattr / delattr / vars / __dict__ / __setattr__ / __slots__ disables the rule) is the statement
+#           <expr>.A = []  or  <expr>.A = list(), so whatever object carries it, x.A is a list the engine allocated itself;
+#           and (ii) EVERY occurrence of `name` in the function is that assignment, the receiver of a mutating method call that
+#           is a statement of its own (name.append(..)), or the argument of len(name): the ELEMENTS of the list are never read
+#           through the name (they may be untracked cell values); what is stored into it escapes as usual (SStore / rejected
+#           cell).  Any other use of the name, or any other binding of it -> RSrc as before.
 #   mutate  x[i] = v, del x[i], x += .., x.append/insert/extend/sort/reverse/pop/remove/clear/push/unshift/splice/shift/fill/
 #           add/set/update/delete(..) -> SSetItem x  (x may be an expression: x[i].append(..) mutates the cell / element).
 #   emit    query_context.writer.write(..), self.subwriter.write(..), this.subwriter.write(..) -> SEmit of the last argument
-#           (and of any other list-valued argument).
+#           (and of any other list-valued argument);  also p.write(..) for a RECEIVER PARAMETER p (calls rule).
 #   store   an LV object placed in a display, stored in an attribute / subscript (also as a key), or passed to a mutating
 #           method of another object -> SStore.  A CELL stored into a flat row (display of depth 1, row.append(cell),
 #           row[i] = cell) needs no statement: the cells of a row are never trusted; stored anywhere else -> SStore (rejected).
@@ -55,9 +73,28 @@
 #           return/break/continue only in tail position (an `if c: jump` in the middle of a block moves the rest of the block
 #           into the branches that fall through); a return inside a loop is accepted when nothing with an effect follows the
 #           loop; try/except whose handlers all re-raise and have no effect -> the body; any other try -> every statement of the
-#           body optional (recursively), then the handlers optional, then finally.
+#           body optional (recursively), then the handlers optional, then finally.  A try (no else, no finally) that is FOLLOWED
+#           by statements `rest` in its block and one of whose handlers may leave by return / break / continue -> the body
+#           optional, then SIf(h1', SIf(h2', .. rest)): hi' is handler i - followed by `rest` when it can fall through - and
+#           everything is translated in the tail position of the block (a handler's return there is a return at the end of the
+#           function / loop body).  Every real run is a path: any part of the body, then either one handler (and, if it falls
+#           through, the rest) or the rest.  A return / break / continue inside the try BODY is still refused in that case.
 #   calls   a function defined in the translated files (also self.m(..), and self.attr(..) when attr is only ever assigned
 #           methods of the class: one branch per candidate) is inlined with fresh variables; a recursive call is an unknown call.
+#           RECEIVER PARAMETER: when the argument of an inlined call is self.subwriter / this.subwriter (or a receiver parameter
+#           of the caller) and the callee binds the parameter p nowhere else (closures included), p stands for that receiver:
+#           p.write(..) -> SEmit, p.finish() -> nothing (finish_chain), as for self.subwriter itself.  Not for
+#           query_context.writer (engine code re-assigns it).  Otherwise p is an untracked name: p.write(x) is an unknown method
+#           call (SSetItem + SStore of x); a receiver parameter that is used as a list is refused.
+#           LAZY PARAMETER (Python): when the argument is a generator expression (elt for T in it [if c..]) with ONE for clause,
+#           whose targets T are bound nowhere else in the caller, and EVERY occurrence of the parameter p in the callee is the
+#           iterable of `for U in p` (p never rebound): `it` is evaluated at the call, in the caller (Python evaluates the
+#           outermost iterable when the generator is created); every such loop becomes SFor(T = an element of `it` exactly as a
+#           for statement binds it; the conditions; U = the value of elt, classified IN THE CALLER'S SCOPE at that point (RVar /
+#           RCopy / RConcat / RCell / RElem ... as for an assignment U = elt); the loop body).  The callee cannot touch the
+#           caller's variables, so this is the generator's own order of evaluation; more steps / a second loop over the
+#           exhausted generator only add paths.  Any other generator expression is a comprehension: RFresh, refused when its
+#           element mentions an LV name it does not bind itself.  (Targets of comprehensions take their DEPTH from the iterable.)
 #   A statement or expression outside these forms raises TranslateError naming file:line.
 #   NOT OF INTEREST (no statement): a statement in which no LV name occurs and that is not one of the forms above; bodies of
 #   lambdas / function expressions that mention no LV name of the enclosing function (refused if they do); constructors
@@ -65,7 +102,11 @@
 #   set_header / get_warnings; the contents of UNTRACKED names.
 #   ASSUMED: the only calls that return source objects are get_record / get_rhs / get_join_records; an unknown callee reaches
 #   list objects only through its arguments; query_context.writer / self.subwriter / this.subwriter are the only ways to the
-#   next writer.
+#   next writer.  For the writer-owned-state rule: query_context.writer always is a writer of the chain (checked for the
+#   translated assignments, assumed for the untranslated set-up code); calling a WRITER_CLASSES name constructs that class and,
+#   like every untranslated constructor, keeps only fresh objects and its arguments; values that reach a writer's state through
+#   UNTRACKED names are cell values and are not followed (the same trust a writer method already gives to self.attr[i]).  For
+#   the engine-owned-list rule: attributes are bound only by the translated files (no dynamic attribute store elsewhere).
 import ast
 import importlib
 import json
@@ -171,6 +212,8 @@ class Source:
         self.functions = {}     # name -> list of (FunctionDef, file)
         self.classes = {}       # name -> (ClassDef, file)
         self.js_items = {}      # name -> (kind, text, first_line, file)   not yet parsed
+        self.trees = []         # whole-module trees (Python only), for the whole-program check of owned_attrs
+        self._owned = None
 
     def add_python(self, path):
         text = open(path, encoding='utf-8').read()
@@ -178,6 +221,8 @@ class Source:
             tree = ast.parse(text, filename=path)
         except SyntaxError as e:
             raise TranslateError('%s:%s: cannot parse: %s' % (path, e.lineno, e.msg))
+        self.trees.append(tree)
+        self._owned = None
         in_class = set()
         for n in ast.walk(tree):
             if isinstance(n, ast.ClassDef):
@@ -218,6 +263,41 @@ class Source:
             self.functions.setdefault(name, []).append((body[0], path))
         else:
             self.classes[name] = (body[0], path)
+
+    def owned_attrs(self):
+        """attribute names A such that EVERY binding of an attribute named A anywhere in the translated Python files is the
+        statement  <expr>.A = []  or  <expr>.A = list()  (sole target): whatever object, `x.A` is a list the engine allocated
+        itself, never a source object.  JavaScript: none (the files are not parsed as a whole)."""
+        if self._owned is not None:
+            return self._owned
+        good_nodes, good, bad = set(), set(), set()
+        dynamic = False
+        for tree in self.trees:
+            for n in ast.walk(tree):
+                if isinstance(n, ast.Assign) and len(n.targets) == 1 and isinstance(n.targets[0], ast.Attribute):
+                    v = n.value
+                    if (isinstance(v, ast.List) and not v.elts) or (isinstance(v, ast.Call) and isinstance(v.func, ast.Name) and v.func.id == 'list'
+                                                                    and not v.args and not v.keywords):
+                        good_nodes.add(id(n.targets[0]))
+                        good.add(n.targets[0].attr)
+                elif isinstance(n, ast.ClassDef):
+                    for m in n.body:                    # class-level names are attributes of the instances too
+                        if isinstance(m, (ast.FunctionDef, ast.AsyncFunctionDef, ast.ClassDef)):
+                            bad.add(m.name)
+                        elif isinstance(m, ast.Assign):
+                            for t in m.targets:
+                                bad.update(target_names(t))
+                        elif isinstance(m, (ast.AnnAssign, ast.AugAssign)):
+                            bad.update(target_names(m.target))
+                elif isinstance(n, ast.Name) and n.id in ('setattr', 'delattr', '__dict__', 'vars', '__setattr__'):
+                    dynamic = True
+                elif isinstance(n, ast.Attribute) and n.attr in ('__dict__', '__setattr__', '__slots__'):
+                    dynamic = True
+            for n in ast.walk(tree):
+                if isinstance(n, ast.Attribute) and isinstance(n.ctx, (ast.Store, ast.Del)) and id(n) not in good_nodes:
+                    bad.add(n.attr)
+        self._owned = set() if dynamic else good - bad
+        return self._owned
 
     def function(self, name):
         if name in self.js_items and self.js_items[name][0] == 'function':
@@ -450,9 +530,66 @@ def root_name(e):
     return e.id if isinstance(e, ast.Name) else None
 
 
-def is_emit_call(node):
+def is_emit_receiver(e, aliases=()):
+    return expr_text(e) in EMIT_RECEIVERS or (isinstance(e, ast.Name) and e.id in aliases)
+
+
+def is_emit_call(node, aliases=()):
     return (isinstance(node, ast.Call) and isinstance(node.func, ast.Attribute) and node.func.attr == 'write'
-            and expr_text(node.func.value) in EMIT_RECEIVERS)
+            and is_emit_receiver(node.func.value, aliases))
+
+
+def bound_names(body, skip=()):
+    """every name bound anywhere below body (nested functions, lambdas and comprehensions included), except by the nodes in skip"""
+    out = set()
+    for n in walk_all(body):
+        if id(n) in skip:
+            continue
+        if isinstance(n, ast.Assign):
+            for t in n.targets:
+                out.update(target_names(t))
+        elif isinstance(n, (ast.AnnAssign, ast.AugAssign, ast.For, ast.AsyncFor, ast.comprehension, ast.NamedExpr)):
+            out.update(target_names(n.target))
+        elif isinstance(n, ast.ExceptHandler) and n.name:
+            out.add(n.name)
+        elif isinstance(n, (ast.With, ast.AsyncWith)):
+            for it in n.items:
+                if it.optional_vars is not None:
+                    out.update(target_names(it.optional_vars))
+        elif isinstance(n, ast.Delete):
+            for t in n.targets:
+                out.update(target_names(t))
+        elif isinstance(n, (ast.Global, ast.Nonlocal)):
+            out.update(n.names)
+        elif isinstance(n, (ast.Import, ast.ImportFrom)):
+            out.update((a.asname or a.name).split('.')[0] for a in n.names)
+        elif isinstance(n, (ast.FunctionDef, ast.AsyncFunctionDef, ast.ClassDef)):
+            out.add(n.name)
+        if isinstance(n, (ast.FunctionDef, ast.AsyncFunctionDef, ast.Lambda)):
+            a = n.args
+            for x in getattr(a, 'posonlyargs', []) + a.args + a.kwonlyargs + [y for y in (a.vararg, a.kwarg) if y is not None]:
+                out.add(x.arg)
+                pat = getattr(x, 'js_pattern', None)
+                if pat is not None:
+                    out.update(target_names(pat))
+    return out
+
+
+def only_iterated(body, name):
+    """every occurrence of `name` below body is the iterable of a for statement of this very function: for T in name"""
+    iters = set()
+    for n in walk_shallow(body):
+        if isinstance(n, ast.For) and isinstance(n.iter, ast.Name) and n.iter.id == name:
+            iters.add(id(n.iter))
+    return bool(iters) and all(id(n) in iters for n in walk_all(body) if isinstance(n, ast.Name) and n.id == name)
+
+
+class LazyArg:
+    """a generator expression passed as an argument: its iterable was evaluated at the call (kind, depth, in the caller's
+    scope); targets, conditions and element are evaluated by every iteration of the callee's loops over the parameter"""
+
+    def __init__(self, gen, kind, depth, scope):
+        self.gen, self.kind, self.depth, self.scope = gen, kind, depth, scope
 
 
 def flatten_add(e):
@@ -512,7 +649,7 @@ def listy(e, lv):
     return False
 
 
-def compute_lv(body, init):
+def compute_lv(body, init, aliases=()):
     lv = set(init)
     for n in walk_shallow(body):
         if isinstance(n, ast.Name) and n.id in INTEREST:
@@ -527,7 +664,7 @@ def compute_lv(body, init):
                 lv.add(f.value.id)
             if isinstance(f, ast.Name) and f.id in LISTY_FUNCS:
                 lv.update(a.id for a in n.args if isinstance(a, ast.Name))
-            if is_emit_call(n) and n.args and isinstance(n.args[-1], ast.Name):
+            if is_emit_call(n, aliases) and n.args and isinstance(n.args[-1], ast.Name):
                 lv.add(n.args[-1].id)
         elif isinstance(n, ast.For):
             it = unwrap_iter(n.iter)
@@ -563,6 +700,36 @@ def compute_lv(body, init):
 
 
 INF = 99
+OWNED_ATTRS = set()         # Source.owned_attrs() of the language being translated (set by main)
+
+
+def is_owned_attr(e):
+    return isinstance(e, ast.Attribute) and e.attr in OWNED_ATTRS and expr_text(e.value) == 'query_context'
+
+
+def owned_aliases(body, params):
+    """names n whose every occurrence in the function is: the sole target of  n = query_context.A  (A an engine-owned list
+    attribute), the receiver of a mutating method call that is a statement of its own ( n.append(..) ), or the argument of len(n).
+    The elements of the list are never read through such a name."""
+    if not OWNED_ATTRS:
+        return set()
+    ok_nodes, cands, skip = set(), set(), set()
+    for n in walk_shallow(body):
+        if isinstance(n, ast.Assign) and len(n.targets) == 1 and isinstance(n.targets[0], ast.Name) and is_owned_attr(n.value):
+            cands.add(n.targets[0].id)
+            ok_nodes.add(id(n.targets[0]))
+            skip.add(id(n))
+        elif isinstance(n, ast.Expr) and isinstance(n.value, ast.Call) and isinstance(n.value.func, ast.Attribute) \
+                and isinstance(n.value.func.value, ast.Name) and n.value.func.attr in MUTATORS:
+            ok_nodes.add(id(n.value.func.value))
+        elif isinstance(n, ast.Call) and isinstance(n.func, ast.Name) and n.func.id == 'len' and len(n.args) == 1 and isinstance(n.args[0], ast.Name) \
+                and not getattr(n, 'keywords', []):
+            ok_nodes.add(id(n.args[0]))
+    cands -= bound_names(body, skip) | set(params)
+    for n in walk_all(body):
+        if isinstance(n, ast.Name) and n.id in cands and id(n) not in ok_nodes:
+            cands.discard(n.id)
+    return cands
 
 
 def depth_of(e, lv, env):
@@ -657,7 +824,7 @@ def compute_depth(body, lv, init):
                 target_depths(n.target, depth_of(n.value, lv, env), sites)
             elif isinstance(n, ast.AugAssign) and isinstance(n.target, ast.Name):
                 sites.append((n.target.id, depth_of(n.value, lv, env)))
-            elif isinstance(n, (ast.For, ast.AsyncFor)):
+            elif isinstance(n, (ast.For, ast.AsyncFor, ast.comprehension)):
                 d = depth_of(unwrap_iter(n.iter), lv, env)
                 target_depths(n.target, INF if d >= INF else max(0, d - 1), sites)
             elif isinstance(n, ast.Call) and isinstance(n.func, ast.Attribute) and isinstance(n.func.value, ast.Name) and n.func.attr in MUTATORS:
@@ -690,6 +857,10 @@ class Scope:
         self.ret = None             # IR variable receiving list-valued return values
         self.ret_listy = False
         self.returned_in_loop = False
+        self.wlocals = set()        # locals that only ever hold a writer object (rule "writer-owned state")
+        self.emit_alias = set()     # parameters that stand for self.subwriter / this.subwriter (rule "receiver parameter")
+        self.owned_alias = set()    # LV names that only ever name an engine-owned list and never read its elements
+        self.lazy = {}              # parameter -> LazyArg: a generator expression argument, evaluated by the loops over it
 
 
 JUMPS = (ast.Return, ast.Break, ast.Continue)
@@ -778,7 +949,26 @@ class Tr:
             r = root_name(e)
             if r in ('self', 'this') or (r is not None and r in self.scope.locals):
                 return ('load',)
+        if self.writer_state(e):
+            return ('load',)
         return ('src',)
+
+    def writer_value(self, v, locals_):
+        """v evaluates to a writer object of the chain: query_context.writer, or a new instance of a translated writer class"""
+        if expr_text(v) == 'query_context.writer':
+            return True
+        return (isinstance(v, ast.Call) and isinstance(v.func, ast.Name) and v.func.id in WRITER_CLASSES and v.func.id not in locals_
+                and self.src.klass(v.func.id) is not None and not self.src.function(v.func.id))
+
+    def writer_state(self, e):
+        """e is W.attr or W.attr[i]..[j] (no calls, no slices) where W is query_context.writer or a writer local: an object
+        read from the state of a writer of the chain - what a writer method reaches as self.attr / self.attr[i]"""
+        while isinstance(e, ast.Subscript) and not isinstance(e.slice, ast.Slice):
+            e = e.value
+        if not isinstance(e, ast.Attribute):
+            return False
+        w = e.value
+        return expr_text(w) == 'query_context.writer' or (isinstance(w, ast.Name) and w.id in self.scope.wlocals)
 
     # -- binding an expression's value to an IR variable
     def materialize(self, kind, hint='t'):
@@ -1025,7 +1215,7 @@ class Tr:
         f = c.func
         kwvals = [k.value for k in getattr(c, 'keywords', [])]
         # 1. emit
-        if is_emit_call(c):
+        if is_emit_call(c, sc.emit_alias):
             if not c.args:
                 self.fail(c, 'write() without a record argument')
             for i, a in enumerate(c.args):
@@ -1037,7 +1227,7 @@ class Tr:
                 self.emit('emit', x)
             return ('scalar',)
         ftext = expr_text(f)
-        if isinstance(f, ast.Attribute) and f.attr == 'finish' and expr_text(f.value) in EMIT_RECEIVERS and not c.args:
+        if isinstance(f, ast.Attribute) and f.attr == 'finish' and is_emit_receiver(f.value, sc.emit_alias) and not c.args:
             return ('scalar',)          # finish of the next writer: run by finish_chain in the model
         # 2. sources
         if isinstance(f, ast.Attribute) and f.attr in SRC_METHODS:
@@ -1213,14 +1403,37 @@ class Tr:
             return ('unknown', callnode)
         if len(args) > len(params) and fdef.args.vararg is None:
             self.fail(callnode, 'call of %s with %d arguments for %d parameters' % (name, len(args), len(params)))
-        # classify the arguments in the caller's scope
-        kinds = [self.classify(a) for a in args]
-        self.ninline += 1
-        prefix = '%s#%d.' % (name, self.ninline)
         pnames = []
         for p in params:
             pat = getattr(p, 'js_pattern', None)
             pnames.append(target_names(pat) if pat is not None and not isinstance(pat, ast.Name) else [p.arg])
+        # receiver parameters (the argument is self.subwriter / this.subwriter, or such a parameter of the caller) and lazy
+        # parameters (the argument is a generator expression that the callee only iterates); neither may be rebound
+        rebound = bound_names(fdef.body)
+        emit_alias, lazy = set(), {}
+        for i, a in enumerate(args):
+            if i >= len(pnames) or len(pnames[i]) != 1 or pnames[i][0] in rebound or [n for ns in pnames for n in ns].count(pnames[i][0]) != 1:
+                continue
+            if expr_text(a) in ('self.subwriter', 'this.subwriter') or (isinstance(a, ast.Name) and a.id in self.scope.emit_alias):
+                emit_alias.add(pnames[i][0])
+            elif isinstance(a, ast.GeneratorExp) and len(a.generators) == 1 and not a.generators[0].is_async \
+                    and only_iterated(fdef.body, pnames[i][0]) and not (set(target_names(a.generators[0].target)) & self.scope.locals):
+                lazy[pnames[i][0]] = i
+        # classify the arguments in the caller's scope
+        kinds = []
+        for i, a in enumerate(args):
+            if i < len(pnames) and len(pnames[i]) == 1 and pnames[i][0] in lazy:
+                g = a.generators[0]
+                it = unwrap_iter(g.iter)
+                k = self.classify(it)                   # the outermost iterable is evaluated when the generator is created
+                if k[0] not in ('scalar', 'unknown', 'src', 'var'):
+                    k = ('var', self.materialize(k, 'it'))
+                lazy[pnames[i][0]] = LazyArg(a, k, self.depth(it), self.scope)
+                kinds.append(('scalar',))
+            else:
+                kinds.append(self.classify(a))
+        self.ninline += 1
+        prefix = '%s#%d.' % (name, self.ninline)
         init = set()
         for i, k in enumerate(kinds):
             if i < len(pnames) and k[0] not in ('scalar', 'unknown') and len(pnames[i]) == 1:
@@ -1229,8 +1442,14 @@ class Tr:
         for i, ns in enumerate(pnames):
             if len(ns) == 1:
                 pdepth[ns[0]] = self.depth(args[i]) if i < len(args) else 0
+                if ns[0] in lazy:
+                    de = self.depth(args[i].elt)        # the loop variable of `for T in <parameter>` has the depth of the element
+                    pdepth[ns[0]] = INF if de >= INF else de + 1
         new = self.make_scope(fdef.body, [n for ns in pnames for n in ns], init, prefix, self.scope.ctx,
-                              cls, ffile, '%s (%s:%d)' % (name, ffile, getattr(fdef, 'lineno', 0)), pdepth)
+                              cls, ffile, '%s (%s:%d)' % (name, ffile, getattr(fdef, 'lineno', 0)), pdepth, emit_alias)
+        new.lazy = lazy
+        if emit_alias & new.lv:
+            self.fail(callnode, 'the receiver parameter %s of %s is used as a list' % (sorted(emit_alias & new.lv), name))
         caller = self.scope
         # bind parameters
         binds = []
@@ -1274,7 +1493,7 @@ class Tr:
             return ('var', new.ret)
         return ('scalar',)
 
-    def make_scope(self, body, params, init_lv, prefix, ctx, cls, fname, label, param_depth=None):
+    def make_scope(self, body, params, init_lv, prefix, ctx, cls, fname, label, param_depth=None, emit_alias=()):
         locals_ = set(params)
         for n in walk_shallow(body):
             if isinstance(n, ast.Assign):
@@ -1286,14 +1505,26 @@ class Tr:
                 locals_.update(target_names(n.target))
             elif isinstance(n, ast.ExceptHandler) and n.name:
                 locals_.add(n.name)
-        lv = compute_lv(body, set(init_lv) | (INTEREST & set(params)))
+        lv = compute_lv(body, set(init_lv) | (INTEREST & set(params)), emit_alias)
         sc = Scope(prefix, lv, locals_, ctx, cls, fname, label)
+        sc.emit_alias = set(emit_alias)
+        sc.owned_alias = owned_aliases(body, params) & lv
+        sc.wlocals = self.writer_locals(body, params, locals_) - lv - NEVER_LV
         pd = dict(param_depth or {})
         for p in params:
             if p in lv and p not in pd:
                 pd[p] = INF
         sc.depth = compute_depth(body, lv, pd)
         return sc
+
+    def writer_locals(self, body, params, locals_):
+        """names whose EVERY binding site in this function (nested closures included) is a plain  name = <writer value>"""
+        good, skip = set(), set()
+        for n in walk_all(body):
+            if isinstance(n, ast.Assign) and len(n.targets) == 1 and isinstance(n.targets[0], ast.Name) and self.writer_value(n.value, locals_):
+                good.add(n.targets[0].id)
+                skip.add(id(n))
+        return good - bound_names(body, skip) - set(params)
 
     # -- statements
     def block(self, stmts, tail):
@@ -1321,6 +1552,25 @@ class Tr:
                     if hasattr(s, attr):
                         setattr(s2, attr, getattr(s, attr))
                 self.stmt(s2, tail)
+                return
+            if isinstance(s, ast.Try) and rest and not s.orelse and not s.finalbody and s.handlers \
+                    and any(may_jump_at_tail(h.body[-1]) for h in s.handlers if h.body):
+                # a handler leaves by return / break / continue while statements follow the try: the body runs (any part
+                # of it), then EITHER one handler runs - followed by the rest of the block if it can fall through - OR the
+                # rest of the block runs
+                ir = self.sub(lambda: self.block(s.body, None))
+                self.out.extend(optional(ir))
+
+                def chain(j):
+                    if j == len(s.handlers):
+                        self.block(rest, tail)
+                        return
+                    h = s.handlers[j]
+                    hb = list(h.body) if (ends_with_jump(h.body) or always_raises(h.body)) else list(h.body) + rest
+                    a = self.sub(lambda: self.block(hb, tail))
+                    b = self.sub(lambda: chain(j + 1))
+                    self.emit('if', a, b)
+                chain(0)
                 return
             self.stmt(s, tail if last else None)
             i += 1
@@ -1359,7 +1609,9 @@ class Tr:
             if t.id in NEVER_LV:
                 return
             if t.id in sc.lv:
-                if kind[0] == 'alts':
+                if t.id in sc.owned_alias and kind[0] == 'unknown' and is_owned_attr(kind[1]):
+                    self.emit('assign', self.v(t.id), ('load',))
+                elif kind[0] == 'alts':
                     self.assign_alts(self.v(t.id), kind[1])
                 else:
                     self.emit('assign', self.v(t.id), self.rhs_of(kind))
@@ -1404,9 +1656,29 @@ class Tr:
             kb = self.classify(t.value)
             if kb[0] not in ('scalar', 'unknown'):
                 self.fail(t, 'attribute store on a list-valued expression')
+            if expr_text(t) == 'query_context.writer':
+                v = getattr(node, 'value', None)
+                if not (isinstance(node, ast.Assign) and (self.writer_value(v, sc.locals) or (isinstance(v, ast.Name) and v.id in sc.wlocals))):
+                    self.fail(node, 'query_context.writer is assigned something that is not a writer of the chain')
             self.escape_kind(kind)
             return
         self.fail(node, 'assignment target form %s' % type(t).__name__)
+
+    def bind_iter(self, target, k, d, node):
+        """target = an element of the iterable of kind k (normalised: var / src / unknown / scalar) and nesting depth d"""
+        de = INF if d >= INF else max(0, d - 1)
+        if d <= 1 and k[0] == 'var':
+            self.bind_target(target, ('cell', k[1]), node, 0)    # iterating a flat record: its cells
+        elif d <= 1:
+            self.bind_target(target, ('scalar',), node, 0)
+        elif k[0] == 'var':
+            self.bind_target(target, ('elem', k[1]), node, de)
+        elif k[0] == 'src':
+            self.bind_target(target, ('src',), node, de)
+        elif k[0] == 'unknown':
+            self.bind_target(target, k, node, de)
+        else:
+            self.bind_target(target, ('scalar',), node, 0)
 
     def classify_quiet(self, e):
         """the kind tag of e without emitting anything"""
@@ -1488,6 +1760,8 @@ class Tr:
                 self.read(s.value)
                 return
             if isinstance(t, ast.Attribute):
+                if expr_text(t) == 'query_context.writer':
+                    self.fail(s, 'query_context.writer is assigned something that is not a writer of the chain')
                 self.read(t.value)
                 self.read(s.value)
                 return
@@ -1526,27 +1800,36 @@ class Tr:
         if isinstance(s, (ast.For, ast.AsyncFor)):
             if s.orelse:
                 self.fail(s, 'for ... else')
+            if isinstance(s.iter, ast.Name) and s.iter.id in sc.lazy:
+                la = sc.lazy[s.iter.id]
+
+                def body():
+                    # one step of the generator, in the scope it was written in: bind its targets to an element of its
+                    # iterable, evaluate the conditions and the element expression; the loop variable denotes that value
+                    self.scope = la.scope
+                    try:
+                        g = la.gen.generators[0]
+                        self.bind_iter(g.target, la.kind, la.depth, g)
+                        for c in g.ifs:
+                            self.read(c)
+                        ek = self.classify(la.gen.elt)
+                        de = self.depth(la.gen.elt)
+                        if ek[0] != 'scalar':
+                            ek = ('var', self.materialize(ek, 'gen'))
+                    finally:
+                        self.scope = sc
+                    self.bind_target(s.target, ek, s, de)
+                    self.block(s.body, 'loop')
+                self.loop(body, s, tail)
+                return
             it = unwrap_iter(s.iter)
             k = self.classify(it)
             if k[0] not in ('scalar', 'unknown', 'src', 'var'):
                 k = ('var', self.materialize(k, 'it'))
-
             d = self.depth(it)
-            de = INF if d >= INF else max(0, d - 1)
 
             def body():
-                if d <= 1 and k[0] == 'var':
-                    self.bind_target(s.target, ('cell', k[1]), s, 0)    # iterating a flat record: its cells
-                elif d <= 1:
-                    self.bind_target(s.target, ('scalar',), s, 0)
-                elif k[0] == 'var':
-                    self.bind_target(s.target, ('elem', k[1]), s, de)
-                elif k[0] == 'src':
-                    self.bind_target(s.target, ('src',), s, de)
-                elif k[0] == 'unknown':
-                    self.bind_target(s.target, k, s, de)
-                else:
-                    self.bind_target(s.target, ('scalar',), s, 0)
+                self.bind_iter(s.target, k, d, s)
                 self.block(s.body, 'loop')
             self.loop(body, s, tail)
             return
@@ -1700,9 +1983,11 @@ def main():
     try:
         for lang in ('py', 'js'):
             source = Source(lang)
+            OWNED_ATTRS.clear()
             if lang == 'py':
                 source.add_python(os.path.join(REPO, 'rbql-py', 'rbql', 'rbql_engine.py'))
                 source.add_python(os.path.join(REPO, 'rbql-py', 'rbql', 'rbql_csv.py'))
+                OWNED_ATTRS.update(source.owned_attrs())
                 items = generated_python()
             else:
                 source.add_js(os.path.join(REPO, 'rbql-js', 'rbql.js'))
